@@ -164,3 +164,37 @@ Proof.
     - specialize (Hrc _ Ho eq_refl). rewrite Hq in Hrc. now injection Hrc. }
   lia.
 Qed.
+
+(* ---- bounds follow the reports ---- *)
+Lemma attempt_bounds tracking s : tlo (vals (fst (attempt tracking s))) = tlo (vals s) /\ thi (vals (fst (attempt tracking s))) = thi (vals s).
+Proof. unfold attempt. destruct (negb (pending s)); [split; reflexivity|]. destruct (left s); split; reflexivity. Qed.
+
+Lemma run_bounds tracking evs : forall s,
+  (tlo (vals (snd (run tracking s evs))), thi (vals (snd (run tracking s evs)))) =
+  fold_left (fun b e => match e with Report r => (tlo r, thi r) | Tick => b end) evs (tlo (vals s), thi (vals s)).
+Proof.
+  induction evs as [|e evs IH]; intros s; [reflexivity|].
+  cbn [run fold_left]. destruct (step tracking s e) as [s1 o] eqn:Es. specialize (IH s1).
+  destruct (run tracking s1 evs) as [os s2]. cbn [snd] in *. rewrite IH. f_equal.
+  destruct e as [|r]; cbn [step] in Es.
+  - destruct (ph s).
+    + pose proof (attempt_bounds tracking s) as [H1 H2]. rewrite Es in H1, H2. cbn [fst] in H1, H2. now rewrite H1, H2.
+    + injection Es as <- _. reflexivity.
+  - injection Es as <- _. reflexivity.
+Qed.
+
+Theorem C06_bounds : C06_bounds_statement.
+Proof.
+  intros tracking t req retries evs. cbn zeta. unfold run_set, start, last_bounds.
+  assert (forall s0 o0, tlo (vals s0) = tlo t -> thi (vals s0) = thi t ->
+     (tlo (vals (snd (let '(os, s) := run tracking s0 evs in (o0 :: os, s)))),
+      thi (vals (snd (let '(os, s) := run tracking s0 evs in (o0 :: os, s))))) =
+     fold_left (fun b e => match e with Report r => (tlo r, thi r) | Tick => b end) evs (tlo t, thi t)) as K.
+  { intros s0 o0 H1 H2. pose proof (run_bounds tracking evs s0) as R. destruct (run tracking s0 evs) as [os s]. cbn [snd] in *.
+    now rewrite R, H1, H2. }
+  destruct ((req <? tlo t) || (thi t <? req)); [apply K; reflexivity|].
+  destruct (req =? tv t); [apply K; reflexivity|].
+  set (s0 := mkPst (with_value t req) (tv t) true retries req 0 PSleeping).
+  pose proof (attempt_bounds tracking s0) as [H1 H2].
+  destruct (attempt tracking s0) as [s1 o0]. cbn [fst] in H1, H2. apply K; [rewrite H1|rewrite H2]; reflexivity.
+Qed.
